@@ -36,11 +36,13 @@ evars == <<l, pre, g, viol, drift, sgn, pc, fin, x, gst, wtv>>
 
 NoFin == [res |-> [i \in K |-> [done |-> FALSE, ok |-> FALSE, pk |-> Blank, pks |-> Blank, share |-> FALSE, vote |-> "none"]], dec |-> <<>>]
 NoX == [succ |-> <<>>, pk |-> Blank, mat |-> [i \in K |-> Blank]]
+NoWt == [r \in G!RoundIdx |-> {}]
+WtObs(line) == [r \in G!RoundIdx |-> SeqSet(line.wt[r])]
 NoG == [node |-> [i \in G!Nodes |-> G!NodeInit], net |-> EmptyBag]
 
 (* observed tables -> node records of Gossip.tla (GossipTrace!ObsNode) *)
 ObsNode(o) == [shares |-> [id \in G!IdSet |-> ToSet(o.shares[id])], keys |-> [id \in G!IdSet |-> o.keys[id]],
-               sigs |-> ToSet(o.sigs), cur |-> o.cur, ptr |-> o.ptr]
+               sigs |-> [r \in G!RoundIdx |-> ToSet(o.sigs[r])], cur |-> o.cur, ptr |-> o.ptr]
 ObsTabs(line) == [i \in G!Nodes |-> ObsNode(line.tabs[i + 1])]
 
 (* the observed handover in the shape of HandoverOf *)
@@ -65,7 +67,7 @@ XAllowed(s, xx) ==
 StepObs(line) == [a |-> line.a, n |-> line.n, verdict |-> line.verdict, prod |-> line.prod, panic |-> line.panic]
 
 EInit == /\ l = 1 /\ pre = InitState /\ g = GhostInit /\ viol = {} /\ drift = {}
-         /\ sgn = "-" /\ pc = 1 /\ fin = NoFin /\ x = NoX /\ gst = NoG /\ wtv = {}
+         /\ sgn = "-" /\ pc = 1 /\ fin = NoFin /\ x = NoX /\ gst = NoG /\ wtv = NoWt
 
 ENext ==
     /\ l <= Len(Trace)
@@ -73,7 +75,7 @@ ENext ==
     /\ LET line == Trace[l] IN
        CASE line.k = "new" ->
               /\ pre' = line.st /\ g' = GhostInit /\ sgn' = line.strat /\ pc' = 1
-              /\ fin' = NoFin /\ x' = NoX /\ gst' = NoG /\ wtv' = {}
+              /\ fin' = NoFin /\ x' = NoX /\ gst' = NoG /\ wtv' = NoWt
               /\ drift' = drift \cup (IF line.st = InitState /\ line.strat \in StrategyNames THEN {} ELSE {l})
               /\ UNCHANGED viol
          [] line.k = "op" ->
@@ -98,13 +100,15 @@ ENext ==
               /\ UNCHANGED <<pre, g, sgn, pc, fin, gst, wtv>>
          [] line.k = "gnew" ->
               /\ gst' = [node |-> ObsTabs(line), net |-> EmptyBag]
-              /\ wtv' = SeqSet(line.wt)
+              /\ wtv' = WtObs(line)
               /\ drift' = drift \cup (IF /\ ObsTabs(line) = [i \in G!Nodes |-> G!NodeInit]
-                                         /\ SeqSet(line.wt) \subseteq Part /\ Cardinality(SeqSet(line.wt)) >= T THEN {} ELSE {l})
+                                         /\ Len(line.wt) = Len(Rounds)
+                                         /\ \A r \in G!RoundIdx : SeqSet(line.wt[r]) \subseteq Part /\ Cardinality(SeqSet(line.wt[r])) >= T
+                                      THEN {} ELSE {l})
               /\ UNCHANGED <<pre, g, viol, sgn, pc, fin, x>>
          [] line.k = "gend" ->
               /\ viol' = viol \cup {<<l, m>> : m \in EndFailed(x, line, ObsTabs(line))}
-              /\ drift' = drift \cup (IF gst.net = EmptyBag /\ ObsTabs(line) = gst.node /\ SeqSet(line.wt) = wtv THEN {} ELSE {l})
+              /\ drift' = drift \cup (IF gst.net = EmptyBag /\ ObsTabs(line) = gst.node /\ Len(line.wt) = Len(Rounds) /\ WtObs(line) = wtv THEN {} ELSE {l})
               /\ UNCHANGED <<pre, g, sgn, pc, fin, x, gst, wtv>>
          [] line.k = "gstep" ->
               LET pk == [m |-> line.m, d |-> line.n]
@@ -113,9 +117,9 @@ ENext ==
                   j == line.n IN
               /\ viol' = viol \cup {<<l, m>> : m \in StepFailed(x, StepObs(line), obsTabs)}
               /\ CASE line.a = "trig" ->
-                        LET r == E2ETrigger(hvo, gst.node[j], j)
+                        LET r == E2ETrigger(hvo, gst.node[j], j, line.m.r)
                             p == E2EPublish(r.nd, j, r.out) IN
-                        /\ drift' = drift \cup (IF /\ j \in wtv
+                        /\ drift' = drift \cup (IF /\ line.m.r \in G!RoundIdx /\ j \in wtv[line.m.r]
                                                    /\ [gst.node EXCEPT ![j] = r.nd] = obsTabs
                                                    /\ p.prod = line.prod /\ line.err = r.err THEN {} ELSE {l})
                         /\ gst' = [node |-> obsTabs, net |-> gst.net (+) PacketsObs(j, line.prod, 1)]
